@@ -59,7 +59,7 @@ if viol:
         os.makedirs(f"{base}/replays", exist_ok=True)
         import hashlib
         rp = f"{base}/replays/{prop}-fuzz-{hashlib.sha1(case.encode()).hexdigest()[:16]}.json"
-        json.dump({"property": prop, "engine": eng, "case": case, "predicate": "fuzz:" + kind, "from": f"libFuzzer {target}", "violations": [{"predicate": kind, "signature": f"{prop}/fuzz", "detail": detail[:2000]}]}, open(rp, "w"), indent=1)
+        json.dump({"property": prop, "engine": eng, "case": case, "profile": "ALL" if eng == "conc" else None, "tier": "quick" if eng == "conc" else "thorough", "predicate": "fuzz:" + kind, "from": f"libFuzzer {target}", "violations": [{"predicate": kind, "signature": f"{prop}/fuzz", "detail": detail[:2000]}]}, open(rp, "w"), indent=1)
         mine = True
         if kind == "oracle":
             exe = f"/verif/target/release/{eng}"
